@@ -1,10 +1,32 @@
-(* C07: theorems are being added; this file holds ONLY statements closed by exact, each followed by Print Assumptions. *)
+(* C07: concurrent clients do not interfere.  ONLY statements closed by `exact`, each followed by Print Assumptions.
+   Histories without reloads.  Replies are abstract events "a reply for the live instance of id" (AReply), because the serial a
+   concrete tag must carry depends on the interleaving; astep_is_step ties them to concrete X/x lines. *)
 From Coq Require Import List NArith ZArith Bool Strings.Byte Strings.String.
 Import ListNotations.
-Require Import Params Iauth IauthFacts.
+Require Import Params Iauth Mon01 Stray TagRT Local.
 Local Open Scope list_scope.
 
-Theorem stray_reply_is_a_noop_on_the_request : forall c tb r svcn text,
-  find_slot (slots tb) 0 svcn (refm r) = None -> reply c tb r svcn text = (Some r, [], []).
-Proof. exact stray_reply_noop. Qed.
-Print Assumptions stray_reply_is_a_noop_on_the_request.
+(* the lines about client c (queries bearing its tag included), with the serial erased, are the same for any two histories
+   that contain the same events of c in the same order - whatever other clients do in between *)
+Theorem interleaving_invariance : forall cf c services rs t h1 h2,
+  filter (abelongs c) h1 = filter (abelongs c) h2 ->
+  map eser (proj c (aouts cf (init cf services rs t) h1)) = map eser (proj c (aouts cf (init cf services rs t) h2)).
+Proof. exact interleave_invariant_from_init. Qed.
+Print Assumptions interleaving_invariance.
+
+(* locality on concrete lines: a line that does not belong to c neither touches c's request nor emits anything naming c *)
+Theorem foreign_lines_are_invisible : forall cf s id argv c,
+  belongs c (id, argv) = false ->
+  lookup c (reqs (fst (step cf s id argv))) = lookup c (reqs s) /\ proj c (snd (step cf s id argv)) = [].
+Proof. exact step_local. Qed.
+Print Assumptions foreign_lines_are_invisible.
+
+(* every concrete step is an abstract step, and every abstract step is the concrete step on the line carrying the current tag *)
+Theorem step_is_astep : forall cf s id argv,
+  step cf s id argv = match abstract s id argv with Some a => astep cf s a | None => (s, []) end.
+Proof. exact step_abstract. Qed.
+Print Assumptions step_is_astep.
+
+Theorem astep_is_step : forall cf s a, SerB s -> id_ok a -> astep cf s a = step cf s (fst (concrete s a)) (snd (concrete s a)).
+Proof. exact astep_concrete. Qed.
+Print Assumptions astep_is_step.
